@@ -97,7 +97,7 @@ func c07Body(s *simkit.Sim, rc *simkit.RunCtx) {
 	}
 	union := map[hash.SHA256Hash]*world.CTx{root.Ref: root}
 	sizes := make([]int, nn)
-	multiVariant := s.D.Decide("multi-page-variant", 2)
+	multiVariant := s.D.Decide("multi-page-variant", 3)
 	for i := range names {
 		switch shape {
 		case "disjoint-branches":
@@ -116,6 +116,10 @@ func c07Body(s *simkit.Sim, rc *simkit.RunCtx) {
 		case "multi-page":
 			if multiVariant == 0 {
 				sizes[i] = []int{1100, 40, 600, 5}[i%4] + s.D.Decide("size", 60)
+			} else if multiVariant == 2 {
+				// two or more pages that everybody has, then disjoint branches on a later page that together are more than one
+				// IBLT can decode: the decode failure must lead back to a page from which the difference is reached again
+				sizes[i] = []int{420, 430, 20, 5}[i%4] + s.D.Decide("size", 60)
 			} else {
 				// two long disjoint branches: differences on several pages on both sides
 				sizes[i] = []int{1100, 1100, 20, 5}[i%4] + s.D.Decide("size", 60)
@@ -131,6 +135,13 @@ func c07Body(s *simkit.Sim, rc *simkit.RunCtx) {
 		view0 = append(view0, t)
 		sharedTxs = append(sharedTxs, t)
 		union[t.Ref] = t
+	}
+	if shape == "multi-page" && multiVariant == 2 {
+		for _, t := range corpus.Chain(view0[len(view0)-1], 1030+s.D.Decide("shared-pages-extra", 600), "shared-chain") {
+			sharedTxs = append(sharedTxs, t)
+			union[t.Ref] = t
+		}
+		s.Info.Inc("shared-pages-then-large-difference")
 	}
 	for _, name := range names {
 		for _, t := range sharedTxs {
